@@ -2844,6 +2844,15 @@ HashtableBase<KeyType,ValueType,HashFunctorType>::EnsureTableAllocated()
 {
    if (this->_table == NULL)
    {
+      if (this->_tableSize == 0)
+      {
+         // This can happen if we were moved-from (the move-constructors create us with zero slots).  Go back to the default capacity so that we are usable again.
+         this->_tableSize      = MUSCLE_HASHTABLE_DEFAULT_CAPACITY;
+#ifndef MUSCLE_HASHTABLE_EXCLUDE_TABLE_INDEX_TYPE_FIELD
+         this->_tableIndexType = this->ComputeTableIndexTypeForTableSize(this->_tableSize);
+#endif
+      }
+
       switch(this->GetTableIndexType())
       {
          case TABLE_INDEX_TYPE_UINT8:
